@@ -108,6 +108,7 @@ let run (hist : string) (impl : string) =
              if w = "PANIC" then (fail "C25" "session-panics" 0 x; fail "C13" "session-panics" 0 x);
              if w = "LEAK" then fail "C13" "goroutine-leak" 0 x) ih.xs;
          let s = ref (init_state hst.cfg) in
+         let mon = ref Chk_gw.hstate_init in
          let ievs = Array.of_list ih.evs in
          List.iteri (fun k (text, ev) ->
              incr nev;
@@ -119,9 +120,10 @@ let run (hist : string) (impl : string) =
              List.iter (fun (o : iout) -> bump (kind_of_text o.text)) iouts;
              if iouts <> [] then Hashtbl.replace nontriv (hst.hline ^ text ^ String.concat "|" (List.map show iouts)) ();
              (* property checkers on the implementation's outputs, in the model's state context *)
+             let (fails, mon') = Chk_gw.step hst.cfg !s s' ev iouts !mon in
+             mon := mon';
              List.iter (fun (p, c) ->
-                 fail p c k (Printf.sprintf "event=%s impl=[%s]" text (String.concat "; " (List.map show iouts))))
-               (Chk_gw.step hst.cfg !s ev iouts);
+                 fail p c k (Printf.sprintf "event=%s impl=[%s]" text (String.concat "; " (List.map show iouts)))) fails;
              (* correspondence *)
              let rec cmp ms is =
                match ms, is with
